@@ -468,19 +468,21 @@ def wrap : PVal → CRes
   | .plain (.handle id) => .remote id
   | v => .val v
 
-/-- the `except` clause of `get_result` (677-683) applied to an exception raised while obtaining or
-decoding the reply -/
+/-- the `except` clause of `get_result` (677-683) applied to an exception raised while obtaining the reply
+(`future.result()`) -/
 def onError (env : Env) (x : Exc) : Exc :=
   if x.code = 4 then (if env.aliveAtError then tryLongerExc else x) else x
 
-/-- `_result_or_exception` (659-665) inside the `try` of `get_result` -/
+/-- `future.result()` inside the `try` of `get_result` (only a failure of the call itself goes through
+the `except` clause — repaired, finding C14-F2), then `_result_or_exception` (659-665) outside it: an
+exception the server evaluated and sent back is re-raised unchanged. -/
 def decode (env : Env) (rep : Reply) : Except Exc CRes :=
   match rep with
   | .raised x => .error (onError env { appStatus with msg := x.msg })   -- future.result() raises StatusNotOk
-  | .payload _ false => .error (onError env notGzipExc)         -- loadz of an uncompressed reply
+  | .payload _ false => .error notGzipExc                       -- loadz of an uncompressed reply
   | .payload w true =>
     match w.loads with
-    | .exc x => .error (onError env x)                          -- isinstance(result, Exception): raise
+    | .exc x => .error x                                        -- isinstance(result, Exception): raise
     | .plain (.handle id) => .ok (.remote id)                   -- LazyObject: RemoteObject.new
     | v => .ok (.val v)
 
